@@ -2,7 +2,7 @@
 use serde_json::Value as J;
 
 fn is_leaf(e: &J) -> bool {
-    matches!(e["k"].as_str().unwrap(), "num" | "id" | "list" | "do") && !(e["k"] == "num" && e["v"].as_i64().unwrap_or(0) < 0)
+    matches!(e["k"].as_str().unwrap(), "num" | "id" | "list" | "do" | "lit" | "rec") && !(e["k"] == "num" && e["v"].as_i64().unwrap_or(0) < 0)
 }
 
 pub fn wrap(e: &J) -> String {
@@ -11,7 +11,9 @@ pub fn wrap(e: &J) -> String {
 
 pub fn bin_sym(o: &str) -> &'static str {
     match o {
-        "add" => "+", "sub" => "-", "mul" => "*", "eq" => "==", "lt" => "<",
+        "add" => "+", "sub" => "-", "mul" => "*", "div" => "/", "mod" => "%", "pow" => "^",
+        "eq" => "==", "ne" => "!=", "lt" => "<", "le" => "<=", "gt" => ">", "ge" => ">=",
+        "and" => "&&", "nand" => "and", "or" => "||", "nor" => "or", "coalesce" => "??",
         "via" => "via", "where" => "where", "into" => "into",
         _ => panic!("core bin {o}"),
     }
@@ -41,6 +43,17 @@ pub fn render(e: &J) -> String {
         "asg" => format!("{} = {}", e["n"].as_str().unwrap(), render(&e["e"])),
         "if" => format!("if {} then {} else {}", wrap(&e["c"]), wrap(&e["t"]), wrap(&e["e"])),
         "idx" => format!("{}[{}]", wrap(&e["e"]), render(&e["i"])),
+        "lit" => crate::mv::src(&e["v"], crate::mv::Lift::Id),
+        "un" => format!("{}{}", if e["o"] == "neg" { "-" } else { "!" }, wrap(&e["e"])),
+        "dot" => format!("{}.{}", wrap(&e["e"]), crate::mv::cs_to_string(&e["f"])),
+        "spread" => format!("...{}", wrap(&e["e"])),
+        "rec" => format!("{{{}}}", e["es"].as_array().unwrap().iter().map(|x| match x["m"].as_str().unwrap() {
+            "static" => format!("{}: {}", crate::mv::cs_to_string(&x["key"]), render(&x["e"])),
+            "short" => x["n"].as_str().unwrap().to_string(),
+            "spread" => format!("...{}", wrap(&x["e"])),
+            "dyn" => format!("[{}]: {}", render(&x["ke"]), render(&x["e"])),
+            m => panic!("core record entry {m}"),
+        }).collect::<Vec<_>>().join(", ")),
         k => panic!("core kind {k}"),
     }
 }
